@@ -1,23 +1,215 @@
 /-
 C19 — the not-compressing PNG encoder (lib/uncompng) emits valid PNGs that decode to exactly the
-input pixels.  Theorems over `Model/Png/Uncomp.lean` (mirror of uncompng.go), stated against the
-independent decoder `Model/Png/Spec.lean` and the checksum specifications of `Model/Hash.lean`.
+input pixels, however rows fall across its fixed 64 KiB buffer, and one Encoder can be reused.
+
+Theorems over `Model/Png/Uncomp.lean` (mirror of uncompng.go, tied to the Go code by differential
+execution in harness/cmd/c19), stated against the independent reference decoder
+`Model/Png/Spec.lean` and the checksum specifications of `Model/Hash.lean`.
+Proofs live in `Proof/Hash*.lean` and `Proof/Png*.lean`; this file states the property theorems.
+No bound on image size other than the encoder's own 0xFFFFFF limit; all six pixel formats.
 -/
 import WuffsVerif.Model.Hash
 import WuffsVerif.Model.Png.Uncomp
 import WuffsVerif.Model.Png.Spec
+import WuffsVerif.Proof.HashLoops
+import WuffsVerif.Proof.PngEncode
+import WuffsVerif.Proof.PngSafe
 
 namespace WuffsVerif.Props.C19
-open WuffsVerif.Hash WuffsVerif.Png
+open WuffsVerif.Hash WuffsVerif.Png WuffsVerif.Png.Uncomp WuffsVerif.Gen.C19
+
+/-! ## Checksums -/
 
 /-- Adler-32 is incremental: feeding `a` then `b` equals feeding `a ++ b`. -/
 theorem adler_incremental (s : Adler) (a b : List UInt8) :
     (s.update a).update b = s.update (a ++ b) := by
   simp [Adler.update, List.foldl_append]
 
-/-- CRC-32 (bit-serial) is incremental on its raw register. -/
+/-- No overflow within the chunk bound (proved, not assumed): started below 65536, the two
+unreduced sums over at most 5552 bytes stay below 2^32. -/
+theorem adler_chunk_no_overflow (a b : Nat) (l : List UInt8) (ha : a ≤ 65535) (hb : b ≤ 65535)
+    (hl : l.length ≤ 5552) : (rawFold (a, b) l).1 < 2 ^ 32 ∧ (rawFold (a, b) l).2 < 2 ^ 32 :=
+  rawFold_lt a b l ha hb hl
+
+/-- The chunked `uint32` loop of `updateAdler32` equals the mathematical checksum state of the bytes
+`buf[ei:ej]`, for every buffer and range, started from a reduced state. -/
+theorem adler_chunked_eq_spec (buf : Array UInt8) (ei ej : Nat) (a b : UInt32)
+    (ha : a.toNat < 65521) (hb : b.toNat < 65521) (hsz : ej ≤ buf.size) :
+    (adlerOuter buf ei ej a b).1.toNat = (Adler.update ⟨a.toNat, b.toNat⟩ (slice buf ei ej)).a ∧
+    (adlerOuter buf ei ej a b).2.toNat = (Adler.update ⟨a.toNat, b.toNat⟩ (slice buf ei ej)).b := by
+  have h := adlerOuter_spec buf ei ej a b ha hb hsz
+  exact ⟨h.1, h.2.1⟩
+
+/-- non-vacuity: the hypotheses hold for the initial state (a, b) = (1, 0) on a 3-byte buffer -/
+example : (adlerOuter #[1, 2, 3] 0 3 1 0).1.toNat = (Adler.update ⟨1, 0⟩ (slice #[1, 2, 3] 0 3)).a :=
+  (adler_chunked_eq_spec #[1, 2, 3] 0 3 1 0 (by decide) (by decide) (by decide)).1
+
+/-- The 256 table entries of uncompng.go (regenerated from the source on every run) are exactly
+those of the bit-serial CRC-32/IEEE definition. -/
+theorem crc_table_eq_spec : crc32IEEETable = crcTableSpec := Uncomp.crc_table_eq_spec
+
+/-- One table-driven byte step equals eight bit-serial steps, for every register value and byte. -/
+theorem crc_bytewise_eq_spec (h : UInt32) (v : UInt8) :
+    crcTableStep crc32IEEETable h v = crcByteSpec h v := by
+  rw [crc_table_eq_spec]; exact crcTableStep_spec h v
+
+/-- CRC-32 is incremental on its raw register. -/
 theorem crc_split (c : UInt32) (a b : List UInt8) :
     crcRawSpec (crcRawSpec c a) b = crcRawSpec c (a ++ b) := by
   simp [crcRawSpec, List.foldl_append]
+
+/-- `crc32IEEE(e.buf[s:t])` of the model is the bit-serial CRC-32 of those bytes. -/
+theorem crc32IEEE_eq_spec (buf : Array UInt8) (s t : Nat) (hst : s ≤ t) (ht : t ≤ buf.size) :
+    crc32IEEE buf s t = crc32Spec (slice buf s t) := crc32IEEE_spec buf s t hst ht
+
+/-! ## In-bounds -/
+
+/-- A fresh `Encoder{}` is usable. -/
+theorem new_usable : Usable Enc.new := ⟨by simp [Enc.new], rfl⟩
+
+/-- `buf_inbounds`: on valid arguments, for EVERY writer (failing at any call or never) and every
+prior buffer content, no store `e.buf[i] = v` and no slice bound leaves the 65536-byte buffer
+(the sticky `oob` flag — Go's index-out-of-range panic — stays clear) and the buffer keeps its size. -/
+theorem buf_inbounds (e : Enc) (w : Writer) (pix : Array UInt8) (width height stride : Nat)
+    (depth colorType : UInt8) (he : Usable e) (hw : w.writes.size = 0)
+    (hw2 : width ≤ 0xFFFFFF) (hh2 : height ≤ 0xFFFFFF)
+    (hd : depth = 8 ∨ depth = 16) (hc : colorType = 1 ∨ colorType = 2 ∨ colorType = 3)
+    (hpix : ∀ y, y < height → y * stride + (loopParams depth colorType).2 * width ≤ pix.size) :
+    (encode e w pix width height stride depth colorType).e.oob = false ∧
+    (encode e w pix width height stride depth colorType).e.buf.size = 65536 := by
+  have hw0 : WOk w.failAt w true := by
+    refine ⟨rfl, ?_⟩
+    cases w.failAt <;> simp [hw]
+  have h := (encode_safe e w pix width height stride depth colorType he hw0 hw2 hh2 hd hc hpix).1
+  exact ⟨h.2, h.1⟩
+
+/-- `ej ≤ ejMax` at every pixel boundary: whatever the pixel loop does (including flushes), it ends
+with `ej ≤ ejMax`, the encoder usable and the writer bookkeeping intact. -/
+theorem ej_le_ejMax (f : Option Nat) (pix : Array UInt8) (n k : Nat) (hn : n ≤ 64) (cnt off : Nat) (s : LoopSt)
+    (h : Safe f s) (hok : s.ok = true) : (pixLoop pix n k cnt off s).ej ≤ ejMax :=
+  (pixLoop_safe pix n k hn cnt off s h hok).ej
+
+/-- The Adler bytes are copied out intact: the four stores at `ej..ej+3` of the final flush do not
+disturb the four reads of `buf[0xFFFC..]` because `ej + 4 ≤ 0xFFFC` (which `ej ≤ ejMax` gives). -/
+theorem adler_copied_intact (e : Enc) (ej : Nat) (s : Adler) (hsz : e.buf.size = 65536)
+    (hA : AdlerAt e.buf s) (hej : ej ≤ ejMax) :
+    appendAdler e ej true = (e.blit ej (adlerBytes s), ej + 4) :=
+  appendAdler_true e ej s hsz hA (by simp only [ejMax] at hej; omega)
+
+/-! ## The property -/
+
+/-- all bytes handed to the writer, in order -/
+abbrev concatWrites (w : Writer) : List UInt8 := out w
+
+/-- `png_roundtrip` (THE property, over the model, all inputs): for every usable encoder state
+(any buffer content), every `0 < width, height ≤ 0xFFFFFF`, every stride, depth 8|16, colour type
+gray|RGBX|NRGBA and every pixel buffer long enough, `Encode` to a non-failing writer returns `ok`
+and the reference decoder accepts the concatenated `Write` calls (signature, chunk lengths and
+bit-serial CRCs, zlib header, stored-block framing, Adler-32, filter-0 scanlines) and returns the
+same width, height, depth, the PNG colour type (0 | 2 | 6) and exactly the input pixel bytes — the
+first `n` of every `k` source bytes, i.e. RGBX without its X byte — however rows and pixels
+straddle the flushes of the 64 KiB buffer. -/
+theorem png_roundtrip (e : Enc) (pix : Array UInt8) (width height stride : Nat) (depth colorType : UInt8)
+    (he : Usable e)
+    (hw : 0 < width) (hw2 : width ≤ 0xFFFFFF) (hh : 0 < height) (hh2 : height ≤ 0xFFFFFF)
+    (hd : depth = 8 ∨ depth = 16) (hc : colorType = 1 ∨ colorType = 2 ∨ colorType = 3)
+    (hpix : (height - 1) * stride + (loopParams depth colorType).2 * width ≤ pix.size) :
+    (encode e (Writer.new none) pix width height stride depth colorType).status = .ok ∧
+    Spec.decode (concatWrites (encode e (Writer.new none) pix width height stride depth colorType).w)
+      = some ⟨width, height, depth.toNat, (pngFileFormatEncoding colorType).toNat,
+          imageBytes pix (loopParams depth colorType).1 (loopParams depth colorType).2 width stride height 0⟩ := by
+  have h := encode_decodes e pix width height stride depth colorType he.1 he.2 hw hw2 hh hh2 hd hc hpix
+  exact ⟨h.1, h.2.2.2⟩
+
+/-- what `imageBytes` is, pointwise: row `y`, pixel `x` contributes `pix[y*stride + k*x ..+n]`. -/
+theorem imageBytes_row (pix : Array UInt8) (n k width stride rows y : Nat) :
+    imageBytes pix n k width stride (rows + 1) y
+      = pixBytes pix n k width (y * stride) ++ imageBytes pix n k width stride rows (y + 1) := rfl
+
+theorem pixBytes_pixel (pix : Array UInt8) (n k cnt off : Nat) :
+    pixBytes pix n k (cnt + 1) off = slice pix off (off + n) ++ pixBytes pix n k cnt (off + k) := rfl
+
+/-- non-vacuity: the hypotheses hold for a fresh encoder and a 2×2 gray image, and the theorem then
+yields a successful decode of that image. -/
+example : ∃ im, Spec.decode (concatWrites (encode Enc.new (Writer.new none) #[1, 2, 3, 4] 2 2 2 8 1).w) = some im ∧
+    im.width = 2 ∧ im.height = 2 := by
+  have h := png_roundtrip Enc.new #[1, 2, 3, 4] 2 2 2 8 1 new_usable (by decide) (by decide) (by decide)
+    (by decide) (Or.inl rfl) (Or.inl rfl) (by decide)
+  exact ⟨_, h.2, rfl, rfl⟩
+
+/-! ## Reuse -/
+
+/-- encoder states reachable from `Encoder{}` by any history of `Encode` calls: valid images to
+arbitrary writers (failing or not), and calls rejected by the argument validation. -/
+inductive Reached : Enc → Prop
+  | fresh : Reached Enc.new
+  | encoded {e : Enc} (h : Reached e) (w : Writer) (hw : w.writes.size = 0) (pix : Array UInt8)
+      (width height stride : Nat) (depth colorType : UInt8)
+      (hw2 : width ≤ 0xFFFFFF) (hh2 : height ≤ 0xFFFFFF)
+      (hd : depth = 8 ∨ depth = 16) (hc : colorType = 1 ∨ colorType = 2 ∨ colorType = 3)
+      (hpix : ∀ y, y < height → y * stride + (loopParams depth colorType).2 * width ≤ pix.size) :
+      Reached (encode e w pix width height stride depth colorType).e
+  | rejected {e : Enc} (h : Reached e) (w : Writer) (pix : Array UInt8) (width height stride : Int)
+      (depth colorType : UInt8)
+      (hbad : width < 0 ∨ height < 0 ∨ (depth ≠ 8 ∧ depth ≠ 16) ∨
+        ¬ (colorType = 1 ∨ colorType = 2 ∨ colorType = 3) ∨ width > 0xFFFFFF ∨ height > 0xFFFFFF) :
+      Reached (encode e w pix width height stride depth colorType).e
+
+/-- frame lemma: every reachable state is usable (`init` rewrites every byte that is read later, so
+nothing else about the previous images matters — `png_roundtrip` needs only `Usable`). -/
+theorem reached_usable {e : Enc} (h : Reached e) : Usable e := by
+  induction h with
+  | fresh => exact new_usable
+  | encoded _ w hw pix width height stride depth colorType hw2 hh2 hd hc hpix ih =>
+    have hw0 : WOk w.failAt w true := by
+      refine ⟨rfl, ?_⟩
+      cases w.failAt <;> simp [hw]
+    exact (encode_safe _ w pix width height stride depth colorType ih hw0 hw2 hh2 hd hc hpix).1
+  | rejected _ w pix width height stride depth colorType hbad ih =>
+    rw [(encode_rejects _ w pix width height stride depth colorType hbad).2.1]; exact ih
+
+/-- `encoder_reusable`: the n-th `Encode` on one Encoder, after any history of earlier images,
+writer failures and rejected calls, has the same guarantee as the first. -/
+theorem encoder_reusable {e : Enc} (hr : Reached e) (pix : Array UInt8) (width height stride : Nat)
+    (depth colorType : UInt8)
+    (hw : 0 < width) (hw2 : width ≤ 0xFFFFFF) (hh : 0 < height) (hh2 : height ≤ 0xFFFFFF)
+    (hd : depth = 8 ∨ depth = 16) (hc : colorType = 1 ∨ colorType = 2 ∨ colorType = 3)
+    (hpix : (height - 1) * stride + (loopParams depth colorType).2 * width ≤ pix.size) :
+    (encode e (Writer.new none) pix width height stride depth colorType).status = .ok ∧
+    Spec.decode (concatWrites (encode e (Writer.new none) pix width height stride depth colorType).w)
+      = some ⟨width, height, depth.toNat, (pngFileFormatEncoding colorType).toNat,
+          imageBytes pix (loopParams depth colorType).1 (loopParams depth colorType).2 width stride height 0⟩ :=
+  png_roundtrip e pix width height stride depth colorType (reached_usable hr) hw hw2 hh hh2 hd hc hpix
+
+/-! ## Writer errors and argument validation -/
+
+/-- `writer_error_propagates`: with a writer whose call number `k` fails, `Encode` on valid
+arguments either never reaches that call and returns `ok`, or returns the write error with the
+failing call being the last `Write` made (exactly `k + 1` calls). -/
+theorem writer_error_propagates (e : Enc) (k : Nat) (pix : Array UInt8) (width height stride : Nat)
+    (depth colorType : UInt8) (he : Usable e)
+    (hw2 : width ≤ 0xFFFFFF) (hh2 : height ≤ 0xFFFFFF)
+    (hd : depth = 8 ∨ depth = 16) (hc : colorType = 1 ∨ colorType = 2 ∨ colorType = 3)
+    (hpix : ∀ y, y < height → y * stride + (loopParams depth colorType).2 * width ≤ pix.size) :
+    ((encode e (Writer.new (some k)) pix width height stride depth colorType).status = .ok ∧
+      (encode e (Writer.new (some k)) pix width height stride depth colorType).w.writes.size ≤ k) ∨
+    ((encode e (Writer.new (some k)) pix width height stride depth colorType).status = .writeError ∧
+      (encode e (Writer.new (some k)) pix width height stride depth colorType).w.writes.size = k + 1) := by
+  have hw0 : WOk (some k) (Writer.new (some k)) true := by simp [WOk, Writer.new]
+  rcases (encode_safe e (Writer.new (some k)) pix width height stride depth colorType he hw0 hw2 hh2 hd hc hpix).2
+    with ⟨h1, h2⟩ | ⟨h1, h2⟩
+  · exact Or.inl ⟨h1, h2.2.1 rfl⟩
+  · exact Or.inr ⟨h1, h2.2.2 rfl⟩
+
+/-- Rejected arguments write nothing and leave the encoder as it was. -/
+theorem invalid_arguments_write_nothing (e : Enc) (w : Writer) (pix : Array UInt8) (width height stride : Int)
+    (depth colorType : UInt8)
+    (hbad : width < 0 ∨ height < 0 ∨ (depth ≠ 8 ∧ depth ≠ 16) ∨
+      ¬ (colorType = 1 ∨ colorType = 2 ∨ colorType = 3) ∨ width > 0xFFFFFF ∨ height > 0xFFFFFF) :
+    ((encode e w pix width height stride depth colorType).status = .invalidArgument ∨
+     (encode e w pix width height stride depth colorType).status = .unsupportedSize) ∧
+    (encode e w pix width height stride depth colorType).e = e ∧
+    (encode e w pix width height stride depth colorType).w = w :=
+  encode_rejects e w pix width height stride depth colorType hbad
 
 end WuffsVerif.Props.C19
